@@ -128,6 +128,21 @@ WhyNot(L) ==
    ELSE IF ~W3Writer(L) THEN "W3w" ELSE IF ~W4Writer(L) THEN "W4w" ELSE IF ~W5Writer(L) THEN "W5w"
    ELSE "ok"
 
+\* what is left of well-formedness when an archive was extended in place by another producer's
+\* rules (append onto a foreign base: re-emitted central records may drop the data-descriptor
+\* flag and keep a stale ZIP64 record next to exact 32-bit fields)
+WellFormedLoose(L) ==
+   /\ L.ok /\ L.big = <<>> /\ W1(L) /\ W5(L) /\ W6(L) /\ W7(L) /\ W8(L) /\ W10(L)
+
+\* Unix mode the attributes denote (made-by system, high and low halves of the external attributes)
+UnixModeOf(sys, hi, lo) ==
+   IF hi = 0 /\ lo = 0 THEN -1
+   ELSE IF sys = 3 THEN hi
+   ELSE IF sys = 0
+        THEN LET m == IF (lo \div 16) % 2 = 1 THEN 16893 ELSE 33204 IN      \* 0o40775 / 0o100664
+             IF lo % 2 = 1 THEN (IF m = 16893 THEN 365 ELSE 292) ELSE m      \* read-only: & 0o555 (DosReadOnlyStripsTypeBits)
+        ELSE -1
+
 (***************************************************************************)
 (* Directory(L): the meaning of an archive -- the sequence of entries the  *)
 (* central directory denotes.                                              *)
